@@ -152,6 +152,7 @@ type Job struct {
 	DetFrom  int64  `json:"det_from"`       // runs in [DetFrom,DetTo) report their hash
 	DetTo    int64  `json:"det_to"`
 	Deadline int64  `json:"deadline_s"` // soft real-time budget for the range
+	Reverse  bool     `json:"reverse,omitempty"` // run the range backwards (history-independence probe)
 	Known    []string `json:"known,omitempty"` // signatures not worth minimising again
 	MaxViol  int    `json:"max_violation_records"`
 }
@@ -293,10 +294,19 @@ func normalise(s string) string {
 
 // Main is the worker entry point called from each property's TestWorker.
 func Main(t *testing.T, p *Prop) {
+	if d := os.Getenv("VERIF_DEBUG_RUN"); d != "" {
+		InitProcess()
+		var run int64
+		var base uint64 = 1
+		fmt.Sscanf(d, "%d,%d", &run, &base)
+		DebugRun(t, p, run, base)
+		return
+	}
 	jobFile := os.Getenv("VERIF_JOB")
 	if jobFile == "" {
 		t.Skip("VERIF_JOB not set: this test binary is a verification worker")
 	}
+	InitProcess() // must happen outside any bubble
 	raw, err := os.ReadFile(jobFile)
 	if err != nil {
 		fatal("read job: %v", err)
@@ -374,7 +384,11 @@ func search(t *testing.T, p *Prop, job *Job, emit func(any), tick func()) {
 	if job.Deadline > 0 {
 		deadline = t0.Add(time.Duration(job.Deadline) * time.Second)
 	}
-	for i := job.From; i < job.To; i++ {
+	for n := job.From; n < job.To; n++ {
+		i := n
+		if job.Reverse {
+			i = job.To - 1 - (n - job.From)
+		}
 		if !deadline.IsZero() && time.Now().After(deadline) {
 			break
 		}
